@@ -240,11 +240,33 @@ func run(c Case) (*history, string, *ev.Failure) {
 		h.Accepted = append(h.Accepted, r.Accepted...)
 		h.WriteErrs = append(h.WriteErrs, r.Errors...)
 	}
-	// cuts that have not fired yet (not enough chunks): give them a chance with a final flush, then stop planning cuts
+	// The writer programs usually finish before the client even notices the first failure. Keep the stream busy (an extra
+	// writer, recorded like the others) until every planned failure had its chance: resume-phase and handshake cuts fire as
+	// the reconnect proceeds, chunk-positioned ones need fresh chunks on the new connection.
+	extraCtr := 0
+	planDeadline := time.Now().Add(2500 * time.Millisecond)
+	for time.Now().Before(planDeadline) {
+		mu.Lock()
+		done := cutIdx >= len(c.Cuts)
+		mu.Unlock()
+		if done || len(rec.ClosedEvents()) > 0 {
+			break
+		}
+		r := upk.RunWriter(up, 9, []upk.Op{{Kind: "write", ID: 1, Sizes: []int{10, 3}}, {Kind: "flush"}}, 500*time.Millisecond, &extraCtr)
+		h.Accepted = append(h.Accepted, r.Accepted...)
+		for _, e := range r.Errors {
+			if containsStreamClosed(e) {
+				h.WriteErrs = append(h.WriteErrs, e)
+			}
+		}
+		time.Sleep(3 * time.Millisecond)
+	}
 	sim.Call(perCall, func() {
 		ctx, cancel := sim.Ctx(2 * time.Second)
 		defer cancel()
-		up.Flush(ctx)
+		if err := up.Flush(ctx); err != nil && errors.Is(err, ierrors.ErrStreamClosed) {
+			h.Closed = true // "writes failing with the stream-closed error": the stream has been reported closed
+		}
 	})
 	time.Sleep(2 * time.Millisecond)
 	mu.Lock()
@@ -296,6 +318,13 @@ func run(c Case) (*history, string, *ev.Failure) {
 		}
 		time.Sleep(5 * time.Millisecond)
 	}
+	sim.Call(perCall, func() {
+		ctx, cancel := sim.Ctx(300 * time.Millisecond)
+		defer cancel()
+		if err := up.Flush(ctx); err != nil && errors.Is(err, ierrors.ErrStreamClosed) {
+			h.Closed = true
+		}
+	})
 	var cerr error
 	ok, _ = sim.Call(perCall, func() {
 		ctx, cancel := sim.Ctx(3 * time.Second)
@@ -609,7 +638,11 @@ func runCase(c Case, k *ev.Case) *ev.Failure {
 }
 
 func gen(t *rapid.T) Case {
-	c := Case{Codec: rapid.SampledFrom([]string{"proto", "json"}).Draw(t, "codec"), Policy: upk.GenPolicy(t), Ack: upk.GenAckPlan(t),
+	pol := upk.GenPolicy(t)
+	if rapid.IntRange(0, 9).Draw(t, "busy-policy") < 6 { // most cases cut chunks often, so that chunk-positioned failures fire
+		pol = rapid.SampledFrom([]upk.Policy{{Kind: "immediate"}, {Kind: "size", Size: 1}, {Kind: "size", Size: 12}, {Kind: "interval_or_size", IntervalMs: 2, Size: 8}}).Draw(t, "policy2")
+	}
+	c := Case{Codec: rapid.SampledFrom([]string{"proto", "json"}).Draw(t, "codec"), Policy: pol, Ack: upk.GenAckPlan(t),
 		Redial: rapid.SampledFrom([]string{"paced", "paced", "instant"}).Draw(t, "redial"), Storage: rapid.SampledFrom([]string{"default", "default", "payload"}).Draw(t, "storage")}
 	c.Ack.Codes = nil
 	nw := rapid.IntRange(1, 3).Draw(t, "nwriters")
@@ -622,10 +655,10 @@ func gen(t *rapid.T) Case {
 		if i == 0 && (cut.Phase == "on-resume-request" || cut.Phase == "after-resume-response" || cut.Phase == "redial-handshake") {
 			cut.Phase = "before-ack" // the first failure has to hit the first connection
 		}
-		cut.N = rapid.IntRange(1, 6).Draw(t, "n")
+		cut.N = rapid.SampledFrom([]int{1, 1, 2, 2, 3, 4, 6}).Draw(t, "n")
 		nwh := rapid.IntRange(0, 3).Draw(t, "nwithhold")
 		for j := 0; j < nwh; j++ {
-			cut.Withhold = append(cut.Withhold, rapid.IntRange(1, 6).Draw(t, "wh"))
+			cut.Withhold = append(cut.Withhold, rapid.IntRange(1, cut.N).Draw(t, "wh"))
 		}
 		c.Cuts = append(c.Cuts, cut)
 	}
